@@ -61,6 +61,12 @@ def build(v):
             for k, x in fields.items():
                 setattr(obj, k, x)
             return obj
+        if t == "class":
+            mod, q = v["ref"].split(":")
+            cls = importlib.import_module(mod)
+            for part in q.split("."):
+                cls = getattr(cls, part)
+            return cls
         if t == "list":
             return [build(x) for x in v["items"]]
         if t == "tuple":
